@@ -273,6 +273,24 @@ class NumpyModel(types.ModuleType):
         self.add = _Ufunc("add", self)
         self.__path__ = []
 
+    def __getattribute__(self, n):
+        v = types.ModuleType.__getattribute__(self, n)
+        if n.startswith("_") or not callable(v) or isinstance(v, type):
+            return v
+        if types.ModuleType.__getattribute__(self, "_real") is None:
+            return v
+        # the numpy shim: numpy arrays are MUTABLE -- `a += b` changes the object every alias sees (jax arrays are immutable,
+        # there `a += b` rebinds).  Symbolic results of numpy functions are marked so that SArray's in-place operators mutate.
+        import functools as _ft
+
+        @_ft.wraps(v)
+        def marked(*a, **k):
+            r = v(*a, **k)
+            if isinstance(r, SArray):
+                r._mutable = True
+            return r
+        return marked
+
     def __getattr__(self, n):
         if n.startswith("__"):
             raise AttributeError(n)
